@@ -8,6 +8,11 @@ where
     T::Err: std::fmt::Display,
 {
     let text = v.to_plain();
+    // history: texts every PLAIN type refuses (after consuming part of them) are parsed first on the same thread
+    for junk in ["aGVsbG8gd29ybGQ*", "AQID!", "12x", "2017-01-02T03:04:0", "ri.a.b", "\u{e9}", "=", "1e", "tru"] {
+        let _ = T::from_plain(junk);
+        let _ = bytes::Bytes::from_plain(junk);
+    }
     match T::from_plain(&text) {
         Ok(w) => json!({"text": text, "back": true, "equal": eq(&w, &v), "reprint_same": w.to_plain() == text}),
         Err(e) => json!({"text": text, "back": false, "err": e.to_string()}),
